@@ -160,4 +160,12 @@ PROPS = {
         "floors": ["c05:isolation", "c05:option-values", "c05:scoping", "c05:random", "c05:repo-proto", "c05:comments"],
         "assumptions": COMMON_ASSUMPTIONS,
     },
+    "C02": {
+        "shards": 16,
+        "level_text": "Bundles are generated together with an independent expected contract (harness code: own snake/camel conversion, own numbering, own nesting and naming rules read from the documentation) and compiled in memory by the real compiler; the observed FileDescriptorProtos are compared element by element: file names and packages, required imports, messages / enums / services and their nesting, per field name, JSON name, number (1-based position after implicit leading fields), type, resolved type name, repeated, proto3-optional, oneof membership, map-entry shape, enum values, service / topic names, request / response / message types, HTTP verb, path with :name -> {snake_name}, body, messaging role and topic name.",
+        "level_note": "The expected model covers objects, oneofs, enums, services and topics; entity expansion is C17's subject (files holding entities are compared as 'contains at least'). The service name of upsert topics is matched by role because README and statement do not agree on a name.",
+        "rule": "one evaluation per bundle; non-trivial = more than one file, a reference / inline type, a service or topic, or an object with >= 8 fields; distinct by hash of the concatenated sources.",
+        "floors": ["c02:isolation", "c02:random"],
+        "assumptions": COMMON_ASSUMPTIONS + ["identifiers are drawn from word lists whose case conversion is unambiguous (fooId <-> foo_id)"],
+    },
 }
